@@ -43,6 +43,10 @@ fn layering(bad: &mut Vec<(String, String)>, evaluated: &mut u64) {
         // ties: the same length as "okane/" (document order decides), and the very same path twice
         Doc { path: "/2024.", account: Some("A:tie"), operator: Some("O:tie"), rule_account: Some("R:tie") },
         Doc { path: "okane/", account: Some("A:okane2"), operator: None, rule_account: Some("R:okane2") },
+        // a longer-path document that restates, verbatim, a rule it inherits from a shorter-path one: rule lists are
+        // concatenated, never merged as sets (seed C17-j)
+        Doc { path: "checking/", account: None, operator: None, rule_account: Some("R:base") },
+        Doc { path: "bank/okane/", account: None, operator: None, rule_account: Some("R:bank") },
     ];
     let files = ["/bank/okane/checking/2024.csv", "/okane/checking/202109.csv", "/bank/savings/x.csv", "/zz/bank/2024/okane/f.csv", "/other/file.csv"];
     // every ordered selection of up to 3 pool documents, written after the base document
